@@ -337,7 +337,11 @@ class Engine:
                     goal = z3.Implies(zbool(self.spec(c.regions[label], {'result': value}, use_old=True, params_only=True)), goal)
                 self.oblige('post', label, goal)
             for i, p in enumerate(c.canaries):
-                self.oblige('canary', str(i), zbool(self.spec(p, {'result': value}, params_only=True)))
+                try:
+                    cz = zbool(self.spec(p, {'result': value}, params_only=True))
+                except (Unsupported, PyRaise, PathCut):
+                    cz = z3.BoolVal(False)        # a canary that cannot be evaluated on this result is certainly not established
+                self.oblige('canary', str(i), cz)
             self.frame_obligations(c)
         else:
             if value in c.raises_bounds:
@@ -525,6 +529,9 @@ class Engine:
             # a module-level constant of the file under analysis built from literals (X = re.compile('...'))
             if isinstance(st, ast.Assign) and len(st.targets) == 1 and isinstance(st.targets[0], ast.Name) \
                     and st.targets[0].id == name and literal_expression(st.value):
+                return eval_literal_expression(st.value)
+            if isinstance(st, ast.AnnAssign) and isinstance(st.target, ast.Name) and st.target.id == name \
+                    and st.value is not None and literal_expression(st.value):
                 return eval_literal_expression(st.value)
         raise Unsupported(f'{self.c.qual}: unknown name {name!r}')
 
@@ -1211,6 +1218,20 @@ class Engine:
         return self.getattr(base, e.attr, t)
 
     def getattr(self, base, attr, text=''):
+        if isinstance(base, Obj) and attr == '__class__' and attr not in base.f:
+            return Opaque('class:' + base.cls)
+        if isinstance(base, Opaque) and isinstance(base.what, str) and base.what.startswith('class:'):
+            # ClassName.X / self.__class__.X: a constant of the class body (the class is looked up in the file under analysis
+            # and in the files the world names for inlined constructors)
+            cname = base.what[6:]
+            ic = self.world.get('__inline_ctors__', {})
+            files = [self.src] + ([Source.get(self.repo, ic[cname])] if isinstance(ic, dict) and ic.get(cname) else [])
+            for src in files:
+                cls = src.find_class(cname)
+                if cls is not None:
+                    cv = class_constant(cls, attr)
+                    if cv is not NotImplemented:
+                        return cv
         if isinstance(base, Obj):
             if attr in base.f:
                 return base.f[attr]
